@@ -31,6 +31,10 @@ func (s termScenario) String() string {
 
 var errInjectedRead = errors.New("harness: injected read error")
 
+// traceExt, when set (the `ltrace` stream), is told about the harness's own actions on the
+// program under test just before they happen: ("send", msg) and ("cancel", nil).
+var traceExt func(kind string, m tea.Msg)
+
 const runWatchdog = 4 * time.Second
 
 type termResult struct {
@@ -189,6 +193,9 @@ func runTermScenario(s termScenario, callers []string) termResult {
 		ctl.initCmd = func() tea.Msg { neverGate.pass(); return nil }
 	}
 	if s.Strike == "pre-cancel" {
+		if traceExt != nil {
+			traceExt("cancel", nil)
+		}
 		cancelParent() // the context is already cancelled when Run starts
 	}
 	bigBatch := make([]tea.Cmd, 0)
@@ -225,6 +232,9 @@ func runTermScenario(s termScenario, callers []string) termResult {
 
 	send := func(m tea.Msg) chan struct{} {
 		ch := make(chan struct{})
+		if traceExt != nil {
+			traceExt("send", m)
+		}
 		go func() { defer close(ch); run.p.Send(m) }()
 		return ch
 	}
@@ -334,6 +344,9 @@ func runTermScenario(s termScenario, callers []string) termResult {
 		causeDone = send(tea.QuitMsg{})
 	case "quitapi":
 		causeDone = make(chan struct{})
+		if traceExt != nil {
+			traceExt("send", tea.QuitMsg{})
+		}
 		go func() { defer close(causeDone); run.p.Quit() }()
 	case "interrupt":
 		causeDone = send(tea.InterruptMsg{})
@@ -345,6 +358,9 @@ func runTermScenario(s termScenario, callers []string) termResult {
 		case <-time.After(time.Second):
 		}
 	case "ctx":
+		if traceExt != nil {
+			traceExt("cancel", nil)
+		}
 		cancelParent()
 		<-ctxDone
 	case "readerr":
